@@ -339,9 +339,9 @@ func FileSettings(t *rapid.T) *recipe.File {
 		case 2:
 			op("ImportAlias", rapid.SampledFrom(paths[:8]).Draw(t, "iap"), rapid.SampledFrom([]string{"d", "foo", "rand", ".", "q"}).Draw(t, "ian"))
 		case 3:
-			op("HeaderComment", rapid.SampledFrom([]string{"Code generated. DO NOT EDIT.", "two\nlines", "// raw header", "trailing blanks   ", "// +build linux", "//go:build linux", "/* unterminated", "// a\nnot a comment", "\ttabbed", "", "//nospace", "/* a */ /* b */", "100% %d", "a */ b"}).Draw(t, "hdr"))
+			op("HeaderComment", rapid.SampledFrom([]string{"Code generated. DO NOT EDIT.", "two\nlines", "// raw header", "trailing blanks   ", "// +build linux", "//go:build linux", "/* unterminated", "// a\nnot a comment", "\ttabbed", "", "//nospace", "/* a */ /* b */", "100% %d", "a */ b", "/*/", "/* closed */ /*/", "// x\n/* begin"}).Draw(t, "hdr"))
 		case 4:
-			op("PackageComment", rapid.SampledFrom([]string{"Package p does things.", "multi\nline doc", "// raw doc", "Deprecated:   spaced   ", "/* unterminated", "// a\nnot a comment", "", "# Heading\n\ttext", "%s"}).Draw(t, "pc"))
+			op("PackageComment", rapid.SampledFrom([]string{"Package p does things.", "multi\nline doc", "// raw doc", "Deprecated:   spaced   ", "/* unterminated", "// a\nnot a comment", "", "# Heading\n\ttext", "%s", "/*/", "// x\n/* begin"}).Draw(t, "pc"))
 		case 5:
 			op("CanonicalPath", rapid.SampledFrom([]string{"example.com/p", "a b", "q\"r"}).Draw(t, "cp"))
 		case 6:
